@@ -3808,6 +3808,21 @@ namespace awkward {
         if (single_step) {
           if (is_segment_done()) {
             bytecodes_pointer_pop();
+
+            if (do_current_depth_ != 0  &&
+                do_abs_recursion_depth() == recursion_current_depth_) {
+              // End one step of a 'do ... loop' or a 'do ... +loop'.
+              if (do_loop_is_step()) {
+                if (stack_cannot_pop()) {
+                  current_error_ = util::ForthError::stack_underflow;
+                  return;
+                }
+                do_i() += stack_pop();
+              }
+              else {
+                do_i()++;
+              }
+            }
           }
           return;
         }
